@@ -172,11 +172,15 @@ theorem preHtk_pvf (b cc : List Byte) : preHtk [0x50, 0x56, 0x46, 0x31] b cc = s
 
 theorem hdr_length (c : Cfg) : (hdr c).length = 5 + (line c).length + 1 := by simp [hdr]; omega
 
-/-- **the reader on `header ++ data`**: the data offset is the header length, or 12 for an 11-byte header -/
-theorem parse_image (c : Cfg) (hwf : c.wf) (data : List Byte) (h12 : 12 ≤ (hdr c ++ data).length) :
-    parse (hdr c ++ data) =
+/-- the data offset either reader finds on `header ++ data`: the header length — or, before the repair, 12 for an
+    11-byte header -/
+def offOf (fx : Bool) (c : Cfg) : Nat := if fx then (hdr c).length else max 12 (hdr c).length
+
+/-- **the reader on `header ++ data`** -/
+theorem parseWith_image (fx : Bool) (c : Cfg) (hwf : c.wf) (data : List Byte) (h12 : 12 ≤ (hdr c ++ data).length) :
+    parseWith fx (hdr c ++ data) =
       .ok { ch := c.ch, fmt := 0x0E0000 + c.codec, sr := c.sr,
-            frames := ((hdr c).length + data.length - max 12 (hdr c).length) / (bytewidth c.codec * c.ch) } := by
+            frames := ((hdr c).length + data.length - offOf fx c) / (bytewidth c.codec * c.ch) } := by
   have hlen : (hdr c ++ data).length = (hdr c).length + data.length := by simp
   have hl := hdr_length c
   have e : hdr c ++ data = [0x50, 0x56, 0x46, 0x31, 0x0A] ++ (line c ++ 0x0A :: data) := by simp [hdr]
@@ -190,10 +194,10 @@ theorem parse_image (c : Cfg) (hwf : c.wf) (data : List Byte) (h12 : 12 ≤ (hdr
   have htw : (line c).takeWhile (· ≠ 0) = line c := takeWhile_all _ (fun b hb => by rcases hlb b hb with h | h <;> omega)
   obtain ⟨s1, s2, s3⟩ := scan_line c
   obtain ⟨hc, hch1, hch2, hsr1, hsr2⟩ := hwf
-  unfold parse
+  unfold parseWith
   rw [if_neg (by omega), hg]
   simp only []
-  unfold readHeader
+  unfold readHeaderWith
   rw [hgl]
   simp only [htw, s1, s2, s3]
   have hbits : bytewidth c.codec * 8 = 8 ∨ bytewidth c.codec * 8 = 16 ∨ bytewidth c.codec * 8 = 32 := by
@@ -209,17 +213,20 @@ theorem parse_image (c : Cfg) (hwf : c.wf) (data : List Byte) (h12 : 12 ≤ (hdr
     have : ((bytewidth c.codec * 8 : Nat) : Int) / 8 = ((bytewidth c.codec : Nat) : Int) := by
       push_cast; exact Int.mul_ediv_cancel _ (by decide)
     rw [this]; push_cast; rfl
-  have hoff : max 12 (min ((hdr c).length + data.length) (5 + ((line c).length + 1))) = max 12 (hdr c).length := by
+  have hoff : dataOffset fx ((hdr c).length + data.length) ((line c).length + 1) = offOf fx c := by
+    unfold dataOffset offOf
     rw [hl, Nat.min_eq_right (by omega), Nat.add_assoc]
   rw [hfmt, hbw, hlen, hoff]
   have hpos : 0 < bytewidth c.codec * c.ch := by
     have : 0 < bytewidth c.codec := by unfold bytewidth; split <;> (try split) <;> omega
     exact Nat.mul_pos this (by omega)
-  have hsplit : (hdr c).length + data.length = max 12 (hdr c).length + ((hdr c).length + data.length - max 12 (hdr c).length) := by
+  have hle : offOf fx c ≤ (hdr c).length + data.length := by
     rw [hlen] at h12
-    have : max 12 (hdr c).length ≤ (hdr c).length + data.length := Nat.max_le.mpr ⟨h12, by omega⟩
-    omega
-  have := framesOf_nat (max 12 (hdr c).length) ((hdr c).length + data.length - max 12 (hdr c).length) _ hpos
+    unfold offOf; split
+    · omega
+    · exact Nat.max_le.mpr ⟨h12, by omega⟩
+  have hsplit : (hdr c).length + data.length = offOf fx c + ((hdr c).length + data.length - offOf fx c) := by omega
+  have := framesOf_nat (offOf fx c) ((hdr c).length + data.length - offOf fx c) _ hpos
   rw [← hsplit] at this
   rw [this]
   simp
